@@ -1,7 +1,7 @@
 (* Driver for the extracted C01 oracle.  Reads on stdin
      MESH id nV repV repE repT repG nT  a b c  a b c ...
    (merged, compacted triangle indices; rep* are the library's NumVert/NumEdge/NumTri/Genus)
-   and prints   V id <check_mesh 0|1> <check_counts 0|1>
+   and prints   V id <check_mesh 0|1> <check_counts 0|1> <check_mesh && check_vertex_manifold 0|1>
    PIPE   prints the verdict of pipeline_ok on every generated pass table (Gen/Pipelines.v) *)
 open C01_model
 
@@ -137,7 +137,9 @@ let () =
           done;
           let m = check_mesh (z_of_int nV) !tris in
           let c = check_counts (z_of_int nV) !tris (z_of_int repV) (z_of_int repE) (z_of_int repT) (z_of_int repG) in
-          Printf.printf "V %s %d %d\n%!" id (if m then 1 else 0) (if c then 1 else 0)
+          (* vertex-manifoldness is only meaningful (and only evaluated) on edge-manifold meshes *)
+          let u = m && check_vertex_manifold (z_of_int nV) !tris in
+          Printf.printf "V %s %d %d %d\n%!" id (if m then 1 else 0) (if c then 1 else 0) (if u then 1 else 0)
         end
       end
     done
